@@ -603,6 +603,11 @@ pub struct TokFifo<const N: usize> {
     /// where writer and reader use different field boundaries, e.g. the coded
     /// frame number is written as bytes and read as 2+6 bits).
     pub exact: bool,
+    /// split (off by default; takes precedence over `exact`): a request may
+    /// take the leading part of the field at the head of the queue but never
+    /// spans two fields; loop-free.  Meant for streams whose field widths are
+    /// concrete (frame headers), where it keeps slot indices concrete.
+    pub split: bool,
 }
 
 impl<const N: usize> TokFifo<N> {
@@ -620,6 +625,7 @@ impl<const N: usize> TokFifo<N> {
             failed: false,
             strict: false,
             exact: true,
+            split: false,
         }
     }
 
@@ -665,6 +671,7 @@ impl<const N: usize> TokFifo<N> {
             failed: self.failed,
             strict: self.strict,
             exact: self.exact,
+            split: self.split,
         }
     }
 
@@ -684,8 +691,37 @@ impl<const N: usize> TokFifo<N> {
         Ok(self.vals[i])
     }
 
+    /// split mode: the leading `n` bits of what is left of the head field
+    #[inline]
+    fn take_split(&mut self, n: u64) -> io::Result<u64> {
+        if n == 0 {
+            return Ok(0);
+        }
+        if self.rd >= self.len {
+            return Err(eof());
+        }
+        let i = self.rd;
+        let rem = self.widths[i] - self.used;
+        kani::assert(
+            self.kinds[i] == 0 && n <= rem && rem <= 64,
+            "TokFifo granularity: a read request spans two written fields",
+        );
+        let v = (self.vals[i] >> (rem - n)) & mask64(n as u32);
+        if n == rem {
+            self.rd = i + 1;
+            self.used = 0;
+        } else {
+            self.used += n;
+        }
+        self.rpos += n;
+        Ok(v)
+    }
+
     /// takes `n <= 64` bits, most significant first
     fn take(&mut self, n: u32) -> io::Result<u64> {
+        if self.split {
+            return self.take_split(u64::from(n));
+        }
         if self.exact {
             return self.take_exact(0, u64::from(n));
         }
@@ -908,6 +944,9 @@ impl<const N: usize> BitRead for TokFifo<N> {
     }
 
     fn skip(&mut self, bits: u32) -> io::Result<()> {
+        if self.split {
+            return self.take_split(u64::from(bits)).map(|_| ());
+        }
         if self.exact {
             return self.take_exact(0, u64::from(bits)).map(|_| ());
         }
@@ -940,7 +979,7 @@ impl<const N: usize> BitRead for TokFifo<N> {
             return Err(eof());
         }
         let want: u8 = if STOP_BIT == 0 { 1 } else { 2 };
-        if self.exact {
+        if self.exact || self.split {
             let i = self.rd;
             self.rd = i + 1;
             kani::assert(
